@@ -46,41 +46,45 @@ def r9_engine_contracts(a, tier):
     )
     # ------------------------------------------------------------------ call()
     fn = a.ct.lookup(CTX, 'call')
-    for lrec in (False, True):
+    for lrec, NODE in [(lr, nd) for lr in (False, True) for nd in ('NODE', '', 0, False, ())]:  # a falsy rule value is a value
         state = Recorder('state')
         gotos: list = []
         me = Stub(CTX, state=state, tracer=Recorder('tracer'), callstack=[], pos=3,
                   heartbeat=Hook(lambda: None), next_token=Hook(lambda *x: None),
-                  rule_call=Hook(lambda ri, key: Obj(node='NODE', newpos=42)), recursive_call=Hook(lambda ri, key: Obj(node='NODE', newpos=42)),
+                  rule_call=Hook(lambda ri, key, NODE=NODE: Obj(node=NODE, newpos=42)), recursive_call=Hook(lambda ri, key, NODE=NODE: Obj(node=NODE, newpos=42)),
                   goto=Hook(lambda p: gotos.append(p)), set_furthest_exception=Hook(lambda e: None))
         ri = Obj(should_trace=False, is_lrec=lrec, is_tokn=False, name='r')
         ret, raised = _run(_interp(a), me, fn, [ri])
         appended = [t[1][0] for t in state.trace if t[0] in ('append', 'extend') and t[1]]
         kinds = [t[0] for t in state.trace if t[0] in ('append', 'extend')]
-        ok = raised is None and ret == 'NODE' and gotos[-1:] == [42] and appended == ['NODE'] and kinds == ['append']
-        rep.add({'fn': 'call', 'left_recursive': lrec, 'returns': repr(ret), 'raised': raised, 'goto': gotos, 'state_ops': kinds, 'values': [repr(x) for x in appended], 'ok': ok})
+        same = lambda x, y: x == y and type(x) is type(y)  # noqa: E731
+        ok = raised is None and same(ret, NODE) and gotos[-1:] == [42] and len(appended) == 1 and same(appended[0], NODE) and kinds == ['append']
+        rep.add({'fn': 'call', 'left_recursive': lrec, 'rule_value': repr(NODE), 'returns': repr(ret), 'raised': raised, 'goto': gotos, 'state_ops': kinds, 'values': [repr(x) for x in appended], 'ok': ok})
         if not ok:
-            rep.fail(fn.qualname, f'call:{"lrec" if lrec else "plain"}', f'call() with a rule result (node NODE, end position 42): returns {ret!r}, moves the '
-                     f'caller to {gotos}, state operations {kinds} with {appended}; required: goto(42), one append(NODE), return NODE '
+            rep.fail(fn.qualname, f'call:{"lrec" if lrec else "plain"}' + ('' if NODE == 'NODE' else f':{NODE!r}'), f'call() with a rule result (node {NODE!r}, end position 42): returns {ret!r}, moves the '
+                     f'caller to {gotos}, state operations {kinds} with {appended}; required: goto(42), one append({NODE!r}), return {NODE!r} '
                      f'(the caller continues after the rule and the rule value is ONE element of the caller)', fn.loc)
     # -------------------------------------------------------------- rule_call()
     fn = a.ct.lookup(ENGINE, 'rule_call')
-    states = Recorder('states')
-    memoized: list = []
-    me = Stub(ENGINE, states=states, pos=5, memo=Hook(lambda key: None), set_left_recursion_guard=Hook(lambda key: None),
-              next_token=Hook(lambda *x: None), set_parseinfo=Hook(lambda *x, **k: None), memoize=Hook(lambda key, res: memoized.append((key, res))),
-              semantics_call=Hook(lambda ri, node, pos=None: ('ACTION', node)))
-    me._attrs['func_call'] = Hook(lambda ri, me=me: (me._attrs.__setitem__('pos', 9), 'BODY')[1])
-    key = Obj(pos=5)
-    ret, raised = _run(_interp(a), me, fn, [Obj(name='r', is_name=False, is_tokn=False), key])
-    ops = [t[0] for t in states.trace if t[0] in ('new', 'push', 'undo', 'pop', 'merge')]
-    want = ('RR', ('ACTION', 'BODY'), 9)
-    ok = raised is None and ret == want and ops[:1] == ['new'] and ops[-1:] == ['undo'] and len(ops) == 2 and memoized == [(key, want)]
-    rep.add({'fn': 'rule_call', 'returns': repr(ret), 'frame_ops': ops, 'memoized_same_result': memoized == [(key, want)], 'ok': ok})
-    if not ok:
-        rep.fail(fn.qualname, 'rule_call', f'rule_call() with a body returning BODY at position 9 and an action returning (ACTION, BODY): returns {ret!r}, '
-                 f'frame operations {ops}, memoized {memoized!r}; required: RuleResult((ACTION, BODY), 9) returned and memoized under the key, the '
-                 f'frame opened with new() (a rule does not see the names of its caller) and closed with undo()', fn.loc)
+    for action_result in ('<pair>', '', 0, False, []):  # the action's result, also a falsy one, is the rule value
+        states = Recorder('states')
+        memoized: list = []
+        me = Stub(ENGINE, states=states, pos=5, memo=Hook(lambda key: None), set_left_recursion_guard=Hook(lambda key: None),
+                  next_token=Hook(lambda *x: None), set_parseinfo=Hook(lambda *x, **k: None), memoize=Hook(lambda key, res, memoized=memoized: memoized.append((key, res))),
+                  semantics_call=Hook(lambda ri, node, pos=None, action_result=action_result: ('ACTION', node) if action_result == '<pair>' and isinstance(action_result, str) else action_result))
+        me._attrs['func_call'] = Hook(lambda ri, me=me: (me._attrs.__setitem__('pos', 9), 'BODY')[1])
+        key = Obj(pos=5)
+        ret, raised = _run(_interp(a), me, fn, [Obj(name='r', is_name=False, is_tokn=False), key])
+        ops = [t[0] for t in states.trace if t[0] in ('new', 'push', 'undo', 'pop', 'merge')]
+        value = ('ACTION', 'BODY') if isinstance(action_result, str) and action_result == '<pair>' else action_result
+        want = ('RR', value, 9)
+        ok = raised is None and ret == want and type(ret[1]) is type(value) and ops[:1] == ['new'] and ops[-1:] == ['undo'] and len(ops) == 2 and memoized == [(key, want)]
+        rep.add({'fn': 'rule_call', 'action_returns': repr(value), 'returns': repr(ret), 'frame_ops': ops, 'memoized_same_result': memoized == [(key, want)], 'ok': ok})
+        if not ok:
+            rep.fail(fn.qualname, 'rule_call' + ('' if action_result == '<pair>' and isinstance(action_result, str) else f':{action_result!r}'),
+                     f'rule_call() with a body returning BODY at position 9 and an action returning {value!r}: returns {ret!r}, '
+                     f'frame operations {ops}, memoized {memoized!r}; required: RuleResult({value!r}, 9) returned and memoized under the key, the '
+                     f'frame opened with new() (a rule does not see the names of its caller) and closed with undo()', fn.loc)
     # ------------------------------------------------------------------ repeat()
     fn = a.ct.lookup(CTX, 'repeat')
     for omitsep in (False, True):
